@@ -23,7 +23,7 @@ PY_SUCC = "PyLibSucc PySrcSucc PySrcSuccFacts PySrcSuccCtl PySrcSuccCtlFacts"   
 PY_API = PY_SCCMAIN + " PyLibBlocks PySrcSdBlocks PySrcSdBlocksFacts PySrcApi PySrcEndToEndScc PySrcEndToEndBlocks"     # public methods expand_scc / expand_block / build; expand_source_blocks
 PY_CONTROL = "PyLib PyLibSd PyLibPerc PyLibCore PyLibControl PySrcControl PySrcControlFacts PySrcFindDriversFacts PySrcControlCorollaries"    # control.find_drivers, drivers_of_succession
 PY_ASEEDS = PY_MIN + " Candidates Blocks ASeeds PySrcSdASeeds PySrcSdASeedsFacts"     # _sd_algorithms/expand_attractor_seeds.py
-EXTRA_IMPORTS = {"C08": "Candidates Control PyLib PyLibSd PyLibPerc PySrcRetained PySrcRetainedFacts", "C09": "PetriNet PySrcClingo PySrcClingoFacts", "C17": "Names NamesFacts PySrcNames PySrcNamesFacts", "C02": PY_SD + " " + PY_CORE2 + " PySrcEndToEnd", "C01": PY_API, "C03": PY_SD + " " + PY_ASEEDS + " PySrcComplFacts " + PY_API + " " + PY_GETTERS, "C04": PY_SD + " " + PY_CORE, "C05": PY_CORE2 + " " + PY_MIN, "C13": PY_SD + " " + PY_TARGET + " " + PY_ASEEDS + " PySrcTermFacts " + PY_API, "C14": PY_CORE2 + " " + PY_SCC + " " + PY_API, "C15": PY_SD + " " + PY_TARGET + " " + PY_ASEEDS + " " + PY_API, "C16": "PyLib PyLibPickle PySrcPickle PySrcPickleFacts " + PY_CORE2,
+EXTRA_IMPORTS = {"C08": "Candidates Control PyLib PyLibSd PyLibPerc PySrcRetained PySrcRetainedFacts PySrcGreedyFacts", "C09": "PetriNet PySrcClingo PySrcClingoFacts", "C17": "Names NamesFacts PySrcNames PySrcNamesFacts", "C02": PY_SD + " " + PY_CORE2 + " PySrcEndToEnd", "C01": PY_API, "C03": PY_SD + " " + PY_ASEEDS + " PySrcComplFacts " + PY_API + " " + PY_GETTERS, "C04": PY_SD + " " + PY_CORE, "C05": PY_CORE2 + " " + PY_MIN, "C13": PY_SD + " " + PY_TARGET + " " + PY_ASEEDS + " PySrcTermFacts " + PY_API, "C14": PY_CORE2 + " " + PY_SCC + " " + PY_API, "C15": PY_SD + " " + PY_TARGET + " " + PY_ASEEDS + " " + PY_API, "C16": "PyLib PyLibPickle PySrcPickle PySrcPickleFacts " + PY_CORE2,
                  "C06": PY_SPACE + " " + PY_TARGET + " PySrcEndToEndControl " + PY_CONTROL + " " + PY_SUCC, "C07": PY_CONTROL + " PyLibSd2 PySrcSdBase PySrcSdTarget PySrcSdTargetFacts " + PY_SUCC, "C10": PY_PLACE, "C11": PY_PERC, "C19": PY_SD + " " + PY_CORE, "C20": PY_KEY + " " + PY_CORE2 + " PyLibSd PyLibPerc PySrcIso PySrcIsoFacts " + PY_GETTERS}
 
 def imports_for(pid):
@@ -338,6 +338,8 @@ NFVS the code obtains from biodivine_aeon), and (c) for the empty-NFVS shortcut,
 fixed point of the node lies in an avoided space (true for expanded nodes of a faithful diagram; the formal
 counterexample without it is compute_candidates_covers_counterexample).""",
  theorems=[("source_make_heuristic_retained_set", "py_make_heuristic_retained_set_spec", "translator tie: the function GENERATED from the current text of attractor_candidates.make_heuristic_retained_set (PySrcRetained.v: the child space with the fewest NFVS variables, its values on the NFVS, the majority value of the update function for the rest) is the model's Candidates.heuristic_retained for every network, node space, NFVS list and avoid list"),
+           ("source_greedy_optimization_of_model", "py_greedy_of_model", "translator tie for asp_greedy_retained_set_optimization (generated in PySrcRetained.v; compute_fixed_point_reduced_STG = the next entry of the solver tape, the call logged): it runs the model's greedy_loop -- same solver calls in the same order, same retained set and candidates; the text needs one more unit of fuel (its `while not done` test after the last pass)"),
+           ("source_greedy_optimization_to_model", "py_greedy_to_model", None),
            ("pipeline_covers_given_nfvs", "candidates_cover_nfvs", "the end-to-end statement"),
            ("nfvs_reduction", "nfvs_reduction", "negative feedback vertex set => reduced fixed points hit every attractor"),
            ("no_neg_walk_test_exact", "no_neg_walk_b_spec", None), ("graph_test_implies_brute_force_test", "no_neg_walk_b_reduction", None),
